@@ -97,6 +97,7 @@ type veEnv struct {
 	swapName  string
 	swapSize  int64
 	swapFn    func()
+	versionOf func(name, hash string) string
 }
 
 func veMD5(b []byte) string { return fmt.Sprintf("%x", md5.Sum(b)) }
@@ -128,12 +129,22 @@ func (e *veEnv) ev(kind, name, info string) {
 }
 
 // receiverHolds: does the receiver durably hold a validated copy with this hash?
+// A validated file travels  <stage>/name.wait -> <final>/name.lck -> <final>/name
+// (two renames inside fileutil.Move, after the log record was written); it is
+// looked for at all three stations, a few times, because it may be between two.
 func (e *veEnv) receiverHolds(name, hash string) bool {
-	if b, err := os.ReadFile(filepath.Join(e.stageDir, name+".wait")); err == nil && veMD5(b) == hash {
-		return true
-	}
-	if b, err := os.ReadFile(filepath.Join(e.finalDir, name)); err == nil && veMD5(b) == hash {
-		return e.rlog.WasReceived(name, hash, time.Now().Add(-24*time.Hour), time.Now().Add(time.Hour))
+	for attempt := 0; attempt < 25; attempt++ {
+		if b, err := os.ReadFile(filepath.Join(e.stageDir, name+".wait")); err == nil && veMD5(b) == hash {
+			return true
+		}
+		for _, p := range []string{filepath.Join(e.finalDir, name), filepath.Join(e.finalDir, name+".lck")} {
+			if b, err := os.ReadFile(p); err == nil && veMD5(b) == hash {
+				if e.rlog.WasReceived(name, hash, time.Now().Add(-24*time.Hour), time.Now().Add(time.Hour)) {
+					return true
+				}
+			}
+		}
+		time.Sleep(2 * time.Millisecond)
 	}
 	return false
 }
@@ -168,7 +179,17 @@ func (s *veStore) Remove(f sts.File) error {
 		held = s.e.receiverHolds(f.GetName(), h)
 		os.Remove(aside)
 	}
-	s.e.ev("remove", f.GetName(), fmt.Sprintf("%s:%v", h, held))
+	ver := ""
+	if s.e.versionOf != nil {
+		ver = s.e.versionOf(f.GetName(), h)
+	}
+	dbg := ""
+	if rerr == nil && !held {
+		b, err := os.ReadFile(filepath.Join(s.e.finalDir, f.GetName()))
+		dbg = fmt.Sprintf(" final(err=%v md5=%s) logged=%v", err, veMD5(b),
+			s.e.rlog.WasReceived(f.GetName(), h, time.Now().Add(-24*time.Hour), time.Now().Add(time.Hour)))
+	}
+	s.e.ev("remove", f.GetName(), fmt.Sprintf("%s:%v:%s%s", h, held, ver, dbg))
 	s.e.mu.Lock()
 	s.e.removes = append(s.e.removes, f.GetName())
 	if rerr == nil && !held {
@@ -517,6 +538,18 @@ func veRun(tmp string, sc veScenario) string {
 				atomic.StoreInt32(&swapDone, 1)
 			}
 		}
+	}
+	e.versionOf = func(name, hash string) string {
+		for _, f := range sc.files {
+			if f.name == name {
+				for _, v := range []int{0, 1, 2, 100} {
+					if veMD5(veContent(f, v)) == hash {
+						return fmt.Sprintf("v%d", v)
+					}
+				}
+			}
+		}
+		return "v?"
 	}
 	e.rlog = log.NewFileIO(e.logIn, nil, nil, false)
 	e.st = stage.New("src", e.stageDir, e.finalDir, e.rlog, nil, nil)
